@@ -197,12 +197,13 @@ fn nt_c17(cx: &Ctx, _c: &WCase) -> bool {
 
 // ------------------------------------------------------------------ definitions
 
-const STD: [(Profile, u32); 5] = [
-    (Profile::AnySingle, 42),
-    (Profile::Composed, 38),
+const STD: [(Profile, u32); 6] = [
+    (Profile::AnySingle, 36),
+    (Profile::Composed, 34),
     (Profile::Share, 7),
     (Profile::ShareNested, 8),
     (Profile::ForEach, 5),
+    (Profile::Indep, 10),
 ];
 
 pub fn world_engine(prop: &str, thorough: bool) -> Option<WorldEngine> {
@@ -232,10 +233,11 @@ pub fn world_engine(prop: &str, thorough: bool) -> Option<WorldEngine> {
         "C04" => WorldEngine {
             prop: "C04",
             profiles: vec![
-                (Profile::AnySingle, 40),
-                (Profile::Composed, 30),
-                (Profile::ForEach, 18),
-                (Profile::Share, 12),
+                (Profile::AnySingle, 36),
+                (Profile::Composed, 28),
+                (Profile::ForEach, 14),
+                (Profile::Share, 10),
+                (Profile::Indep, 12),
             ],
             max_steps,
             oracle: |cx, _| oracle::c04(cx),
@@ -243,7 +245,13 @@ pub fn world_engine(prop: &str, thorough: bool) -> Option<WorldEngine> {
         },
         "C05" => WorldEngine {
             prop: "C05",
-            profiles: vec![(Profile::AnySingle, 50), (Profile::Composed, 35), (Profile::Share, 15)],
+            profiles: vec![
+                (Profile::AnySingle, 42),
+                (Profile::Composed, 30),
+                (Profile::Share, 8),
+                (Profile::ShareNested, 10),
+                (Profile::Indep, 10),
+            ],
             max_steps,
             oracle: |cx, _| oracle::c05(cx),
             nontrivial: nt_c05,
@@ -264,11 +272,16 @@ pub fn world_engine(prop: &str, thorough: bool) -> Option<WorldEngine> {
         "C07" => WorldEngine {
             prop: "C07",
             profiles: vec![
-                (Profile::Single(Op::Map), 1),
-                (Profile::Single(Op::Filter), 1),
-                (Profile::Single(Op::Scan), 1),
-                (Profile::Single(Op::Take), 2),
-                (Profile::Single(Op::Skip), 1),
+                (Profile::Single(Op::Map), 3),
+                (Profile::Single(Op::Filter), 3),
+                (Profile::Single(Op::Scan), 3),
+                (Profile::Single(Op::Take), 6),
+                (Profile::Single(Op::Skip), 3),
+                (Profile::Dual(Op::Map), 1),
+                (Profile::Dual(Op::Filter), 1),
+                (Profile::Dual(Op::Scan), 1),
+                (Profile::Dual(Op::Take), 2),
+                (Profile::Dual(Op::Skip), 1),
             ],
             max_steps,
             oracle: |cx, _| models::c07(cx),
@@ -276,28 +289,28 @@ pub fn world_engine(prop: &str, thorough: bool) -> Option<WorldEngine> {
         },
         "C08" => WorldEngine {
             prop: "C08",
-            profiles: vec![(Profile::Single(Op::Merge), 1)],
+            profiles: vec![(Profile::Single(Op::Merge), 3), (Profile::Dual(Op::Merge), 1)],
             max_steps,
             oracle: |cx, _| models::c08(cx),
             nontrivial: |cx, _| models::nt_c08(cx),
         },
         "C09" => WorldEngine {
             prop: "C09",
-            profiles: vec![(Profile::Single(Op::Concat), 1)],
+            profiles: vec![(Profile::Single(Op::Concat), 3), (Profile::Dual(Op::Concat), 1)],
             max_steps,
             oracle: |cx, _| models::c09(cx),
             nontrivial: |cx, _| models::nt_c09(cx),
         },
         "C10" => WorldEngine {
             prop: "C10",
-            profiles: vec![(Profile::Single(Op::Combine), 1)],
+            profiles: vec![(Profile::Single(Op::Combine), 3), (Profile::Dual(Op::Combine), 1)],
             max_steps,
             oracle: |cx, _| models::c10(cx),
             nontrivial: |cx, _| models::nt_c10(cx),
         },
         "C11" => WorldEngine {
             prop: "C11",
-            profiles: vec![(Profile::Single(Op::Flatten), 1)],
+            profiles: vec![(Profile::Single(Op::Flatten), 3), (Profile::Dual(Op::Flatten), 1)],
             max_steps,
             oracle: |cx, _| models::c11(cx),
             nontrivial: |cx, _| models::nt_c11(cx),
@@ -311,7 +324,17 @@ pub fn world_engine(prop: &str, thorough: bool) -> Option<WorldEngine> {
         },
         "C13" => WorldEngine {
             prop: "C13",
-            profiles: vec![(Profile::Indep, 1)],
+            profiles: vec![
+                (Profile::Indep, 10),
+                (Profile::Dual(Op::Map), 1),
+                (Profile::Dual(Op::Scan), 1),
+                (Profile::Dual(Op::Take), 1),
+                (Profile::Dual(Op::Skip), 1),
+                (Profile::Dual(Op::Merge), 1),
+                (Profile::Dual(Op::Concat), 1),
+                (Profile::Dual(Op::Combine), 1),
+                (Profile::Dual(Op::Flatten), 1),
+            ],
             max_steps,
             oracle: |cx, _| counts::c13(cx),
             nontrivial: |cx, _| counts::nt_c13(cx),
